@@ -1,6 +1,7 @@
 import Idn.Descr
 import Idn.Basic
 import Idn.Merge
+import Idn.MergeIndex
 import Idn.Devs
 namespace IdnDrv
 open Idn
@@ -27,6 +28,10 @@ partial def loop (h : IO.FS.Stream) : IO Unit := do
     let shw := fun (s : String) => if s = "" then "_" else s
     IO.println (";".intercalate (strs.map shw) ++ " # " ++
       " ".intercalate (idx.map fun (k, v) => s!"{shw k}={v.final},{v.first},{v.second}"))
+  | ["mrgwf", a, b] =>
+    let parse := fun (s : String) => if s = "-" then [] else
+      (s.splitOn ";").map fun e => (e.splitOn "|").map fun t => if t = "_" then "" else t
+    IO.println s!"{IdnM.premisesCheck (parse a) (parse b)}"
   | ["dev", a, b, b1, b2, ts, t1, t2] =>
     let parse := fun (s : String) => if s = "-" then [] else
       (s.splitOn ";").map fun e => (e.splitOn "|").map fun t => if t = "_" then "" else t
